@@ -226,7 +226,11 @@ func (e *kvElection) Start(ctx context.Context) error {
 		if err := e.attemptAcquire(); err != nil {
 			e.recordAcquireAttempt("failed")
 			e.recordFailure(classifyErrorType(err))
-			e.becomeFollower()
+			// An acquisition left over from before a restart may have won
+			// meanwhile (the record is ours): do not depose ourselves.
+			if !e.IsLeader() {
+				e.becomeFollower()
+			}
 		}
 	}()
 
@@ -259,6 +263,14 @@ func (e *kvElection) attemptAcquireWithRetry(ctx context.Context) {
 		default:
 		}
 
+		// A watch event and the periodic check can each start a round; if
+		// another round of this instance has won meanwhile, this one is done.
+		// Its Create can only fail against our own record, and exhausting the
+		// retries must not depose a healthy leader.
+		if e.IsLeader() {
+			return
+		}
+
 		err := e.attemptAcquire()
 		if err == nil {
 			return
@@ -275,7 +287,9 @@ func (e *kvElection) attemptAcquireWithRetry(ctx context.Context) {
 					zap.Error(err),
 				)...,
 			)
-			e.becomeFollower()
+			if !e.IsLeader() {
+				e.becomeFollower()
+			}
 			return
 		}
 
